@@ -175,7 +175,12 @@ func vC04Content(st *AclState, kind int, author string, listLen int) *aclrecordp
 	case 2:
 		cv.Value = &aclrecordproto.AclContentValue_InviteRevoke{InviteRevoke: &aclrecordproto.AclAccountInviteRevoke{InviteRecordId: invId()}}
 	case 3:
-		cv.Value = &aclrecordproto.AclContentValue_RequestJoin{RequestJoin: &aclrecordproto.AclAccountRequestJoin{InviteIdentity: []byte(target()), InviteRecordId: invId(), InviteIdentitySignature: []byte("sig")}}
+		t, iv := target(), invId()
+		sig := []byte("bad")
+		if rt.Choose(2) == 1 {
+			sig = []byte("S(k" + iv + ")" + t) // what the holder of the invite key signs: the joiner's identity
+		}
+		cv.Value = &aclrecordproto.AclContentValue_RequestJoin{RequestJoin: &aclrecordproto.AclAccountRequestJoin{InviteIdentity: []byte(t), InviteRecordId: iv, InviteIdentitySignature: sig}}
 	case 4:
 		cv.Value = &aclrecordproto.AclContentValue_RequestAccept{RequestAccept: &aclrecordproto.AclAccountRequestAccept{Identity: []byte([]string{"a0", "a1", "a2", "zz"}[rt.Choose(4)]), RequestRecordId: reqId(), EncryptedReadKey: []byte("erk"), Permissions: perm()}}
 	case 5:
@@ -212,7 +217,12 @@ func vC04Content(st *AclState, kind int, author string, listLen int) *aclrecordp
 	case 11:
 		cv.Value = &aclrecordproto.AclContentValue_RequestCancel{RequestCancel: &aclrecordproto.AclAccountRequestCancel{RecordId: reqId()}}
 	case 12:
-		cv.Value = &aclrecordproto.AclContentValue_InviteJoin{InviteJoin: &aclrecordproto.AclAccountInviteJoin{Identity: []byte(target()), InviteRecordId: invId(), InviteIdentitySignature: []byte("sig"), EncryptedReadKey: []byte("erk"), Permissions: perm()}}
+		t, iv := target(), invId()
+		sig := []byte("bad")
+		if rt.Choose(2) == 1 {
+			sig = []byte("S(k" + iv + ")" + t)
+		}
+		cv.Value = &aclrecordproto.AclContentValue_InviteJoin{InviteJoin: &aclrecordproto.AclAccountInviteJoin{Identity: []byte(t), InviteRecordId: iv, InviteIdentitySignature: sig, EncryptedReadKey: []byte("erk"), Permissions: perm()}}
 	case 13:
 		cv.Value = &aclrecordproto.AclContentValue_InviteChange{InviteChange: &aclrecordproto.AclAccountInviteChange{InviteRecordId: invId(), Permissions: perm()}}
 	case 14:
